@@ -178,7 +178,7 @@ def handlers(emit, repo):
                     if isinstance(v, tuple):
                         return "(" + ", ".join(lit(x, depth + 1) for x in v) + ("," if len(v) == 1 else "") + ")"
                     return repr(v)
-                f.write("# probabilities as fractions\n{\n")
+                f.write("# probabilities as fractions, e.g. {1/3, 2/3}\n{\n")
                 for n, d in zip(names, descs):
                     f.write("\n  %r : {   # %s\n" % (n, n))
                     for k in [x for x in ("rewards", "players", "transition_list", "final_states", "prune_states") if x in d]:
@@ -193,7 +193,7 @@ def handlers(emit, repo):
                     f.write("  } ,\n")
                 f.write("\n}\n# end\n")
             else:               # hand-written style: comments, one field per line, trailing commas
-                f.write("# hand-made input\n{\n")
+                f.write("# hand-made input {player 1 picks from {alfa, beta}}\n{\n")
                 for n, d in zip(names, descs):
                     f.write("    # game %s\n    %r: {\n" % (n, n))
                     for k in [x for x in ("rewards", "players", "transition_list", "final_states", "prune_states")
